@@ -6,14 +6,18 @@
     forgotten, IS the model's primitive (`forget_next` … `forget_lit`): the counted reading moves the
     parser state exactly as the model does, primitive by primitive; the composite parsers are the
     model's text over these primitives.
-  * The two places where the counted steps are NOT linear in the input, with parametric lower bounds:
-      - `pars.Until(':')` in the CONTIG parser scans to the end of the input when there is no colon
-        (`untilColon_scans_to_end`): one CONTIG line costs the whole rest of the file, `k` such lines
-        `Θ(k · n)`;
+  * The two places where the counted steps WERE not linear in the input, with parametric lower bounds:
+      - `pars.Until(':')` scans to the end of the input when there is no colon
+        (`untilColon_scans_to_end`).  The CONTIG parser called it until /repo a4b3f5d: one CONTIG line
+        cost the whole rest of the file, `k` such lines `Θ(k · n)` (finding K7D).  REPAIRED (F38): the
+        parser now calls `pars.Until` with a filter that also accepts the line ends and requires the
+        colon; `contigField_cost_le` — from EVERY state the counted steps of the CONTIG parser are at
+        most two per byte in front of the first line end plus 37 (a potential argument, `Lin`: every
+        primitive the parser calls pays for the bytes it consumes out of the line's budget);
       - the prefix loop of `quotedQualifierParser` starts `bytes.Index` at the beginning of the token
         and copies the tail in every round: a quoted value of `k` continuation lines costs at least
         `(d + 2) · k · (k + 1) / 2` steps for an indent of `d` columns, i.e. more than
-        `len(token)² / (2 · (d + 2))` (`stripContCost_quadratic`).
+        `len(token)² / (2 · (d + 2))` (`stripContCost_quadratic`) — finding K7E, open.
   * families (`contigFam`, `quotedFam`, …) whose step counts were EVALUATED (`#eval`, not theorems;
     the kernel cannot run the counted reader on inputs of useful size) — see the table at the end.
   Core Lean only.
@@ -21,8 +25,8 @@
 import Gts.Lemmas.GbCostReader
 import Gts.Lemmas.ParsRun
 namespace Gts.Cost
-open Gts.Pars (Bytes PS Err P)
-open Gts.GenBank (bs sp stripCont findSub indexOf Registry)
+open Gts.Pars (Bytes PS Err P indexWhere)
+open Gts.GenBank (bs sp stripCont findSub indexOf Registry contigStop)
 
 /-- run an instrumented parser from counter 0 and throw the counter away -/
 def forget {α} (p : PC α) : P α := fun s =>
@@ -69,9 +73,9 @@ theorem forget_lit (p : Bytes) : forget (lit p) = Pars.lit p := by
 /-! ### `pars.Until(':')` -/
 
 /-- `pars.Until(byte(':'))` on a state without a colon: it fails, leaves the position where it was,
-and has looked at EVERY remaining byte.  (The CONTIG parser calls it behind `CONTIG      join(`;
-`tryAllParsers` then restores the position and the line is read as an unknown field — one line
-consumed for a scan of the whole rest.) -/
+and has looked at EVERY remaining byte.  (Until /repo a4b3f5d the CONTIG parser called it behind
+`CONTIG      join(`; `tryAllParsers` then restored the position and the line was read as an unknown
+field — one line consumed for a scan of the whole rest.) -/
 theorem untilColon_scans_to_end (c : CS) (h : indexOf 58 c.ps.rest = none) :
     untilColon.run' c = (.error .fail, { c with cost := c.cost + (1 + c.ps.rest.length) }) := by
   show untilColon c = _
@@ -296,13 +300,369 @@ theorem long_primitives_le (c : CS) (f : UInt8 → Bool) (p : Bytes) :
       show c.cost + (1 + (i + 1)) ≤ _
       omega
 
+/-! ### the CONTIG parser reads one line (/repo a4b3f5d)
+
+A potential argument.  `pot c` = steps spent + two for every byte between the position and the first
+line end.  `Lin K p`: whatever `p` answers, the counter ends at most `K` above the potential `p` started
+from, and when `p` succeeds the potential itself has grown by at most `K` — the bytes it consumed lie
+on the line and are paid for out of the line's budget.  `Lin` composes along `>>=` (`Lin.bind`); it holds
+of `pars.String` for a literal without line ends, of the field padding, of `pars.Until(filter)` for a
+filter that accepts the line ends (NOT of `pars.Until(':')`: `untilColon_scans_to_end`), of `pars.Int`
+(which pushes and pops its own frame: proved on the unfolded text, `intTail_spec`). -/
+
+/-- a byte that does not end a line -/
+def inLine (b : UInt8) : Bool := b != 10 && b != 13
+
+/-- the bytes in front of the first line end (or of the end of the input) -/
+def lineLen (l : Bytes) : Nat := (l.takeWhile inLine).length
+
+/-- potential of a counted state: the steps spent plus two for every byte left on the line -/
+def pot (c : CS) : Nat := c.cost + 2 * lineLen c.ps.rest
+
+/-- `p` spends at most `K` steps plus two per byte of the line it is on: whatever the outcome, the
+counter ends below the potential it started from plus `K`; when `p` succeeds the potential itself
+has grown by at most `K` (so the bytes `p` has consumed lie on the line and are paid for) -/
+def Lin {α} (K : Nat) (p : PC α) : Prop := ∀ c : CS,
+  (p c).2.cost ≤ pot c + K ∧ ∀ a, (p c).1 = .ok a → pot (p c).2 ≤ pot c + K
+
+theorem lineLen_le (l : Bytes) : lineLen l ≤ l.length := by
+  induction l with
+  | nil => simp [lineLen]
+  | cons x l ih =>
+    simp only [lineLen, List.takeWhile_cons, List.length_cons] at ih ⊢
+    split <;> simp only [List.length_cons, List.length_nil] <;> omega
+
+theorem lineLen_append (a r : Bytes) (h : ∀ x ∈ a, inLine x = true) :
+    lineLen (a ++ r) = a.length + lineLen r := by
+  induction a with
+  | nil => simp
+  | cons x a ih =>
+    have hx := h x (by simp)
+    simp only [lineLen, List.cons_append, List.takeWhile_cons, hx, if_true, List.length_cons] at ih ⊢
+    rw [ih (fun y hy => h y (by simp [hy]))]; omega
+
+theorem lineLen_all (a : Bytes) (h : ∀ x ∈ a, inLine x = true) : lineLen a = a.length := by
+  have := lineLen_append a [] h
+  simpa [lineLen] using this
+
+theorem PC.bind_run {α β} (x : PC α) (f : α → PC β) (c : CS) :
+    (x >>= f) c = match x c with
+      | (.ok a, c') => f a c'
+      | (.error e, c') => (.error e, c') := by
+  show (ExceptT.bind x f) c = _
+  unfold ExceptT.bind ExceptT.bindCont ExceptT.mk
+  simp only [bind, StateT.bind]
+  rcases x c with ⟨r, c'⟩
+  cases r <;> rfl
+
+theorem Lin.bind {α β} {K1 K2 : Nat} {p : PC α} {q : α → PC β} (hp : Lin K1 p)
+    (hq : ∀ a, Lin K2 (q a)) : Lin (K1 + K2) (p >>= q) := by
+  intro c
+  have ⟨h1, h1'⟩ := hp c
+  rw [PC.bind_run]
+  rcases hpc : p c with ⟨r, c1⟩
+  rw [hpc] at h1 h1'
+  cases r with
+  | error e =>
+    simp only at h1 ⊢
+    exact ⟨by omega, fun a h => by cases h⟩
+  | ok a =>
+    have h1'' := h1' a rfl
+    have ⟨h2, h2'⟩ := hq a c1
+    simp only at h1'' ⊢
+    exact ⟨by omega, fun b h => by have := h2' b h; omega⟩
+
+theorem lin_pure {α} (a : α) : Lin 0 (pure a : PC α) := by
+  intro c
+  exact ⟨by show c.cost ≤ pot c + 0; simp only [pot]; omega, fun _ _ => by show pot c ≤ pot c + 0; omega⟩
+
+/-- a parser that leaves the position where it is and spends at most `K` steps -/
+theorem lin_of_frame {α} (K : Nat) (p : PC α)
+    (h : ∀ c, (p c).2.ps.rest = c.ps.rest ∧ (p c).2.cost ≤ c.cost + K) : Lin K p := by
+  intro c
+  have ⟨h1, h2⟩ := h c
+  simp only [pot, h1]
+  exact ⟨by omega, fun _ _ => by omega⟩
+
+theorem lin_lit (p : Bytes) (h : ∀ x ∈ p, inLine x = true) : Lin (1 + p.length) (lit p) := by
+  intro c
+  unfold lit
+  simp only [PC.bind_run, getS, tick]
+  by_cases hm : (c.ps.rest.take p.length == p && decide (p.length ≤ c.ps.rest.length)) = true
+  · rw [if_pos hm]
+    simp only [Bool.and_eq_true, beq_iff_eq, decide_eq_true_eq] at hm
+    have hr : c.ps.rest = p ++ c.ps.rest.drop p.length := by
+      conv => lhs; rw [← List.take_append_drop p.length c.ps.rest, hm.1]
+    have hl := lineLen_append p (c.ps.rest.drop p.length) h
+    rw [← hr] at hl
+    simp only [setS, pot]
+    have : min p.length c.ps.rest.length = p.length := Nat.min_eq_left hm.2
+    exact ⟨by omega, fun _ _ => by omega⟩
+  · rw [if_neg hm]
+    simp only [fail, pot]
+    have : min p.length c.ps.rest.length ≤ p.length := Nat.min_le_left _ _
+    exact ⟨by omega, fun _ h => by cases h⟩
+
+theorem inLine_sp (n : Nat) : ∀ x ∈ sp n, inLine x = true := by
+  intro x hx
+  simp only [sp, List.mem_replicate] at hx
+  rw [hx.2]; rfl
+
+theorem lin_fieldPadding (a b : Nat) : Lin 1 (fieldPadding a b) := by
+  unfold fieldPadding
+  by_cases h1 : a > b
+  · simp only [h1, if_true]
+    apply lin_of_frame
+    intro c
+    simp only [PC.bind_run, clear, getS, setS, tick, fail]
+    exact ⟨trivial, by omega⟩
+  · simp only [h1, if_false]
+    intro c
+    rcases c with ⟨⟨rest, stk⟩, cost⟩
+    simp only [PC.bind_run, getS]
+    by_cases h2 : (sp (b - a)).isPrefixOf rest = true
+    · rw [if_pos h2]
+      simp only [PC.bind_run, advanceN, getS, setS, tick, pure, ExceptT.pure, ExceptT.mk, StateT.pure, pot]
+      obtain ⟨t, ht⟩ := List.isPrefixOf_iff_prefix.mp h2
+      have hl := lineLen_append (sp (b - a)) t (inLine_sp _)
+      rw [ht] at hl
+      have hd : rest.drop (sp (b - a)).length = t := by rw [← ht]; simp
+      rw [hd]
+      exact ⟨by omega, fun _ _ => by omega⟩
+    · rw [if_neg h2]
+      split <;> simp only [PC.bind_run, clear, getS, setS, tick, fail, pure, ExceptT.pure, ExceptT.mk, StateT.pure, pot] <;>
+        exact ⟨by omega, fun _ _ => by omega⟩
+
+theorem lin_fieldName (name : Bytes) (d : Nat) (h : ∀ x ∈ name, inLine x = true) :
+    Lin ((1 + name.length) + 1) (fieldName name d) := by
+  unfold fieldName
+  exact Lin.bind (lin_lit name h) (fun _ => lin_fieldPadding _ _)
+
+theorem indexWhere_split (f : UInt8 → Bool) : ∀ (l : Bytes) (i : Nat), indexWhere f l = some i →
+    i ≤ l.length ∧ ∀ x ∈ l.take i, f x = false
+  | [], _, h => by simp [indexWhere] at h
+  | y :: l, i, h => by
+    unfold indexWhere at h
+    split at h
+    · cases h; simp
+    · rename_i hy
+      cases hi : indexWhere f l with
+      | none => rw [hi] at h; simp at h
+      | some j =>
+        rw [hi] at h
+        simp only [Option.map_some, Option.some.injEq] at h
+        subst h
+        have ⟨h1, h2⟩ := indexWhere_split f l j hi
+        refine ⟨by simp only [List.length_cons]; omega, ?_⟩
+        intro x hx
+        simp only [List.take_succ_cons, List.mem_cons] at hx
+        rcases hx with rfl | hx
+        · simpa using hy
+        · exact h2 x hx
+
+theorem indexWhere_none (f : UInt8 → Bool) : ∀ (l : Bytes), indexWhere f l = none → ∀ x ∈ l, f x = false
+  | [], _ => by simp
+  | y :: l, h => by
+    unfold indexWhere at h
+    split at h
+    · cases h
+    · rename_i hy
+      cases hi : indexWhere f l with
+      | some j => rw [hi] at h; simp at h
+      | none =>
+        intro x hx
+        simp only [List.mem_cons] at hx
+        rcases hx with rfl | hx
+        · simpa using hy
+        · exact indexWhere_none f l hi x hx
+
+/-- `pars.Until(filter)` with a filter that accepts every line end: at most the line -/
+theorem lin_untilFilter (f : UInt8 → Bool) (hf : ∀ b, f b = false → inLine b = true) :
+    Lin 2 (untilFilter f) := by
+  intro c
+  unfold untilFilter
+  simp only [PC.bind_run, getS]
+  cases hi : indexWhere f c.ps.rest with
+  | none =>
+    simp only [PC.bind_run, tick, fail, pot]
+    have := lineLen_all c.ps.rest (fun x hx => hf x (indexWhere_none f _ hi x hx))
+    exact ⟨by omega, fun _ h => by cases h⟩
+  | some i =>
+    simp only [PC.bind_run, tick, setS, pure, ExceptT.pure, ExceptT.mk, StateT.pure, pot]
+    have ⟨h1, h2⟩ := indexWhere_split f _ i hi
+    have hl := lineLen_append (c.ps.rest.take i) (c.ps.rest.drop i) (fun x hx => hf x (h2 x hx))
+    rw [List.take_append_drop] at hl
+    have : (c.ps.rest.take i).length = i := by simp [h1]
+    exact ⟨by omega, fun _ _ => by omega⟩
+
+theorem contigStop_inLine (b : UInt8) (h : contigStop b = false) : inLine b = true := by
+  simp only [contigStop, Bool.or_eq_false_iff, beq_eq_false_iff_ne, ne_eq] at h
+  simp [inLine, h.1.2, h.2]
+
+
+/-! #### `pars.Int` -/
+
+theorem isDigit_inLine (y : UInt8) (h : Pars.isDigit y = true) : inLine y = true := by
+  unfold inLine
+  by_cases h1 : y = 10
+  · subst h1; exact absurd h (by decide)
+  by_cases h2 : y = 13
+  · subst h2; exact absurd h (by decide)
+  simp [h1, h2]
+
+theorem sign_inLine (y : UInt8) (h : (y == 45 || y == 43) = true) : inLine y = true := by
+  unfold inLine
+  by_cases h1 : y = 10
+  · subst h1; exact absurd h (by decide)
+  by_cases h2 : y = 13
+  · subst h2; exact absurd h (by decide)
+  simp [h1, h2]
+
+theorem mem_takeWhile_true (p : UInt8 → Bool) : ∀ (l : Bytes) (x : UInt8), x ∈ l.takeWhile p → p x = true
+  | [], _, h => by simp at h
+  | y :: l, x, h => by
+    rw [List.takeWhile_cons] at h
+    split at h
+    · rename_i hy
+      simp only [List.mem_cons] at h
+      rcases h with rfl | h
+      · exact hy
+      · exact mem_takeWhile_true p l x h
+    · simp at h
+
+/-- `pars.Int` behind its `Push` and the sign -/
+def intTail (c : UInt8) : PC Int :=
+  if !Pars.isDigit c then do pop; fail
+  else if c == 48 then do advance1; drop; pure 0
+  else do
+    skipWhile Pars.isDigit
+    let p ← trail
+    tick p.length
+    match Pars.atoi p with
+    | some n => pure n
+    | none => fail
+
+theorem int_eq : int = (do
+    push
+    let c ← next
+    let c ← if c == 45 || c == 43 then do advance1; next else pure c
+    intTail c) := rfl
+
+/-- behind a sign of at most one byte, with the frame of `pars.Int` on top of the stack -/
+theorem intTail_spec (sgn : Bytes) (hsl : sgn.length ≤ 1)
+    (y : UInt8) (r : Bytes) (stk : List Bytes) (cost : Nat) :
+    (intTail y ⟨⟨y :: r, (sgn ++ y :: r) :: stk⟩, cost⟩).2.cost ≤ cost + 2 * lineLen (y :: r) + 3 ∧
+    ∀ a, (intTail y ⟨⟨y :: r, (sgn ++ y :: r) :: stk⟩, cost⟩).1 = .ok a →
+      pot (intTail y ⟨⟨y :: r, (sgn ++ y :: r) :: stk⟩, cost⟩).2 ≤ cost + 2 * lineLen (y :: r) + 3 := by
+  unfold intTail
+  by_cases hd : Pars.isDigit y = true
+  · have hy := isDigit_inLine y hd
+    have hly : lineLen (y :: r) = 1 + lineLen r := lineLen_append [y] r (by simpa using hy)
+    by_cases h0 : (y == 48) = true
+    · simp only [hd, h0, Bool.not_true, Bool.false_eq_true, if_false, if_true, PC.bind_run, advance1, drop,
+        getS, setS, tick, pure, ExceptT.pure, ExceptT.mk, StateT.pure, pot, List.drop_one, List.tail_cons]
+      exact ⟨by omega, fun _ _ => by omega⟩
+    · obtain ⟨D, T, hl, hD, hT⟩ : ∃ D T, y :: r = D ++ T ∧ (∀ x ∈ D, Pars.isDigit x = true) ∧
+          (y :: r).dropWhile Pars.isDigit = T :=
+        ⟨_, _, (List.takeWhile_append_dropWhile (p := Pars.isDigit) (l := y :: r)).symm,
+          fun x hx => mem_takeWhile_true _ _ x hx, rfl⟩
+      have hlD : lineLen (D ++ T) = D.length + lineLen T :=
+        lineLen_append D T (fun x hx => isDigit_inLine x (hD x hx))
+      simp only [hd, h0, Bool.not_true, Bool.false_eq_true, if_false, PC.bind_run, skipWhile, getS, setS, tick,
+        trail]
+      rw [hT, hl]
+      have hlen : ¬ (sgn ++ (D ++ T)).length < T.length := by simp; omega
+      have hn : (sgn ++ (D ++ T)).length - T.length = (sgn ++ D).length := by simp; omega
+      have htake : (sgn ++ (D ++ T)).take (sgn ++ D).length = sgn ++ D := by
+        rw [← List.append_assoc]; exact List.take_left' rfl
+      have hdrop : (sgn ++ (D ++ T)).drop (sgn ++ D).length = T := by
+        rw [← List.append_assoc]; exact List.drop_left' rfl
+      simp only [hlen, if_false, PC.bind_run, hn, pure, ExceptT.pure, ExceptT.mk, StateT.pure, setS,
+        htake, hdrop]
+      have hDT : (D ++ T).length - T.length = D.length := by simp
+      rw [hDT]
+      have hsD : (sgn ++ D).length = sgn.length + D.length := by simp
+      cases Pars.atoi (sgn ++ D) with
+      | none =>
+        simp only [fail, pot, hsD]
+        exact ⟨by omega, fun _ h => by cases h⟩
+      | some n =>
+        simp only [pot, hsD, pure, StateT.pure]
+        exact ⟨by omega, fun _ _ => by omega⟩
+  · have hd' : Pars.isDigit y = false := by simpa using hd
+    simp only [hd', Bool.not_false, if_true, PC.bind_run, pop, getS, setS, tick, fail]
+    exact ⟨by omega, fun _ h => by cases h⟩
+
+theorem lin_int : Lin 7 int := by
+  rw [int_eq]
+  intro c
+  rcases c with ⟨⟨rest, stk⟩, cost⟩
+  cases rest with
+  | nil =>
+    simp only [PC.bind_run, push, next, getS, setS, tick, fail, pot]
+    exact ⟨by omega, fun _ h => by cases h⟩
+  | cons x r =>
+    by_cases hs : (x == 45 || x == 43) = true
+    · have hx := sign_inLine x hs
+      have hlx : lineLen (x :: r) = 1 + lineLen r := lineLen_append [x] r (by simpa using hx)
+      cases r with
+      | nil =>
+        simp only [PC.bind_run, push, next, advance1, getS, setS, tick, fail, pure, ExceptT.pure, ExceptT.mk,
+          StateT.pure, hs, if_true, pot, List.drop_one, List.tail_cons]
+        exact ⟨by omega, fun _ h => by cases h⟩
+      | cons y r' =>
+        simp only [PC.bind_run, push, next, advance1, getS, setS, tick, pure, ExceptT.pure, ExceptT.mk,
+          StateT.pure, hs, if_true, List.drop_one, List.tail_cons]
+        have ⟨k1, k2⟩ := intTail_spec [x] (by simp) y r' stk (cost + 1 + 1 + 1 + 1)
+        simp only [List.singleton_append] at k1 k2
+        simp only [pot] at k2 ⊢
+        exact ⟨by omega, fun a h => by have := k2 a h; omega⟩
+    · simp only [PC.bind_run, push, next, getS, setS, tick, pure, ExceptT.pure, ExceptT.mk,
+        StateT.pure, hs, if_false, Bool.false_eq_true]
+      have ⟨k1, k2⟩ := intTail_spec [] (by simp) x r stk (cost + 1 + 1)
+      simp only [List.nil_append] at k1 k2
+      simp only [pot] at k2 ⊢
+      exact ⟨by omega, fun a h => by have := k2 a h; omega⟩
+
+
+/-! #### the CONTIG parser -/
+
+theorem inLine_of_decide (p : Bytes) (h : p.all inLine = true) : ∀ x ∈ p, inLine x = true :=
+  fun x hx => List.all_eq_true.mp h x hx
+
+/-- `genbankContigParser` (a4b3f5d) in the counted reading: every primitive it calls stays on the line
+the parser started on -/
+theorem lin_contigField (d : Nat) (f : GenBank.Fields) : Lin 37 (contigField d f) := by
+  have h : Lin ((1 + (bs "CONTIG").length + 1) + ((1 + (bs "join(").length) + (2 + ((1 + [58].length) +
+      (7 + ((1 + (bs "..").length) + (7 + ((1 + [41].length) + 0)))))))) (contigField d f) := by
+    unfold contigField
+    refine Lin.bind (lin_fieldName _ d (inLine_of_decide _ (by decide))) fun _ => ?_
+    refine Lin.bind (lin_lit _ (inLine_of_decide _ (by decide))) fun _ => ?_
+    refine Lin.bind (lin_untilFilter _ contigStop_inLine) fun acc => ?_
+    refine Lin.bind (lin_lit _ (inLine_of_decide _ (by decide))) fun _ => ?_
+    refine Lin.bind lin_int fun head => ?_
+    refine Lin.bind (lin_lit _ (inLine_of_decide _ (by decide))) fun _ => ?_
+    refine Lin.bind lin_int fun tail => ?_
+    refine Lin.bind (lin_lit _ (inLine_of_decide _ (by decide))) fun _ => ?_
+    exact lin_pure _
+  exact h
+
+/-- THE CONTIG PARSER READS ONE LINE: from every state its counted steps are at most two per byte in
+front of the first line end plus 37, whatever follows that line -/
+theorem contigField_cost_le (d : Nat) (f : GenBank.Fields) (c : CS) :
+    ((contigField d f).run' c).2.cost ≤ c.cost + (2 * lineLen c.ps.rest + 37) := by
+  have := (lin_contigField d f c).1
+  simp only [pot] at this
+  show ((contigField d f) c).2.cost ≤ _
+  omega
+
 /-! ### the evaluated families
 
 `stepsOf` (counted steps of reading the input as a GenBank stream, registry `Registry.default`),
 evaluated with `#eval` for `k = 16, 64, 256, 1024` — steps per input byte:
 
     family                                                      16     64    256   1024   accepted
-    contigFam    k CONTIG lines without a colon                 15     40    136    520   yes   QUADRATIC
+    contigFam    k CONTIG lines without a colon                  8      9      9      9   yes   (15 / 40 / 136 / 520 until a4b3f5d)
     quotedFam    one quoted /note of k continuation lines        8     33    137    554   yes   QUADRATIC
     commentFam   k one-line COMMENT fields                        5      5      5      5   yes
     skipFam      k unknown lines (skipped)                        7      7      7      7   yes
@@ -317,7 +677,8 @@ evaluated with `#eval` for `k = 16, 64, 256, 1024` — steps per input byte:
     unclosedFam  k qualifiers with escaped quotes                 2      2      2      2   yes
 
 On the REAL code (`gts length < file`, this machine): contigFam 500 / 2000 / 8000 lines (9.6 / 38 /
-152 KB): 0.09 / 0.55 / 10.5 s; quotedFam 5000 / 20000 / 80000 lines (115 KB / 460 KB / 1.8 MB): 0.04 /
+152 KB): 0.09 / 0.55 / 10.5 s until a4b3f5d (scan alone, 15 / 61 / 243 KB: 0.07 / 1.15 / 18.8 s before,
+3 / 9 / 33 ms after); quotedFam 5000 / 20000 / 80000 lines (115 KB / 460 KB / 1.8 MB): 0.04 /
 0.48 / 16.5 s.  Three further super-linear shapes are in code the counted reading does NOT count
 (construction of values): `join(` of k parts — `LocationList.Push` walks to the end of its linked list
 for every part, `gts.AsLocation` alone 10000 / 20000 / 40000 parts: 0.85 / 4.8 / 23 s —, k qualifiers
@@ -330,7 +691,8 @@ def recHead : Bytes := bs "LOCUS       X 4 bp DNA linear UNA 01-JAN-2000\n"
 def recTail : Bytes := bs "ORIGIN      \n        1 acgt\n//\n"
 def featHead : Bytes := bs "FEATURES             Location/Qualifiers\n"
 
-/-- `k` CONTIG lines without a colon: an ACCEPTED record (each line ends up as an unknown field) -/
+/-- `k` CONTIG lines without a colon: an ACCEPTED record (each line ends up as an unknown field);
+quadratic until /repo a4b3f5d -/
 def contigFam (k : Nat) : Bytes := recHead ++ rep k (bs "CONTIG      join(x\n") ++ recTail
 
 /-- one feature with a quoted `/note` of `k` continuation lines: an ACCEPTED record -/
@@ -349,3 +711,46 @@ def featFam (k : Nat) : Bytes :=
   recHead ++ featHead ++ rep k (bs "     CDS             join(1..2,3..4)\n                     /gene=\"abc\"\n                     /codon_start=1\n") ++ recTail
 
 end Gts.Cost
+
+namespace Gts.GenBank
+open Gts.Pars
+
+/-- the token of `pars.Until(filter)` holds no byte the filter accepts -/
+theorem untilFilter_token (f : UInt8 → Bool) (s s' : PS) (a : Bytes)
+    (h : untilFilter f s = (.ok a, s')) : ∀ x ∈ a, f x = false := by
+  unfold untilFilter at h
+  simp only [P.bind_run, getS] at h
+  cases hi : indexWhere f s.rest with
+  | none => rw [hi] at h; cases h
+  | some i =>
+    rw [hi] at h
+    simp only [P.bind_run, advanceN, getS, setS, pure, ExceptT.pure, ExceptT.mk, StateT.pure] at h
+    cases h
+    exact (Cost.indexWhere_split f _ i hi).2
+
+/-- an accession the CONTIG parser has read (a4b3f5d) holds no colon and no line end -/
+theorem contigField_accession (d : Nat) (f : Fields) (s s' : PS) (r : Fields × Bool)
+    (h : contigField d f s = (.ok r, s')) : ∀ x ∈ r.1.contigAcc, contigStop x = false := by
+  unfold contigField at h
+  simp only [P.bind_run] at h
+  split at h
+  case h_2 => cases h
+  split at h
+  case h_2 => cases h
+  split at h
+  case h_2 => cases h
+  rename_i _ acc _ hacc
+  split at h
+  case h_2 => cases h
+  split at h
+  case h_2 => cases h
+  split at h
+  case h_2 => cases h
+  split at h
+  case h_2 => cases h
+  split at h
+  case h_2 => cases h
+  cases h
+  exact untilFilter_token contigStop _ _ acc hacc
+
+end Gts.GenBank
